@@ -163,6 +163,7 @@ pub fn alphabet(lo: i64, hi: i64) -> (u32, Vec<(i64, i64)>) {
         (hi, hi),
         (b(nb / 3), e(nb / 3)),
         (e(nb / 3), b(nb / 3 + 1)),
+        (b(nb / 3 + 1), b(nb / 3 + 1)),
         (b(nb / 6), e(nb / 2)),
         (b(nb / 2 - 1), e(nb * 5 / 6)),
         (b(nb - 3), e(nb - 2)),
